@@ -24,22 +24,44 @@ def _ev(text):
             "technique": "machine-checked proof in Coq + model/implementation correspondence check"}
 
 CHECKS.update({
- "C01": _ev("executable chain model of value.go/eval.go (lazy base chains, imports, merge flags) compared with EvalEnvironment on exhaustive "
-            "small families and random import graphs; spec = left fold of merge patch over the imports' observed values; known class kf_oso"),
- "C02": _ev("evaluator model compared on random programs with references and built-ins; oracle: key-order independence, references denote "
-            "the final value, round trips, documented functions of literal arguments; known class toString over an object base"),
- "C03": _ev("two-run non-interference oracle on the implementation (all secret payloads substituted, redacted renderings byte-identical) "
-            "plus flag-level correspondence with the model"),
- "C05": _ev("collaborator call log of the implementation compared with the model's log; oracle on the log: no Open in check mode, inputs "
-            "unknown-free, schema-valid and exact, root/current names, each site at most once, each successful load at most once"),
- "C06": _ev("check / check+showSecrets / open runs of the same world compared with the model in each mode; oracle: no Open in check, no "
-            "Decrypt unless showSecrets, approx(check, open)"),
- "C07": _ev("fault enumeration over every collaborator call position compared with the model, cyclic/self/failing imports, reference cycles; "
-            "implementation-only shape-error and byte-mutation stream through Load/Check/Eval/Encrypt/Decrypt"),
- "C09": _ev("N+1 evaluations in one process and one in a fresh process; Environment JSON and sorted diagnostic texts byte-compared; model "
-            "correspondence on the same programs"),
- "C10": _ev("${imports.X} seen from arbitrary importers after all merges compared with X evaluated on its own (values and flags), plus "
-            "model correspondence"),
+ "C01": _ev("theorems (all depths, fan-in, repetition, merge flags, failing loads): value.go's lazy chain export equals the closed-form "
+            "flat_merge; export(c1++c2) = mp(...) IFF a decidable compatibility condition; the evaluator's exported JSON equals the "
+            "property's nested fold of merge patch for literal worlds outside the known class kf_oso; the full statement is refuted "
+            "(C01-assoc).  Correspondence: the chain/evaluator model vs EvalEnvironment on exhaustive small families and random import "
+            "graphs; spec = left fold of merge patch over the imports' OBSERVED values"),
+ "C02": _ev("theorems: byte-level port of parseInterpolate / propertyAccessParser with $$ law, exact path round trip, totality; "
+            "fromJSON(toJSON v) = v incl. arrays and objects; base64 round trip in the evaluator; string form = the value toJSON shows "
+            "for single-layer values, refuted for inherited keys (C02-tostring).  'A reference denotes the final value' and the "
+            "documented functions of built-ins are evaluated by claims on the implementation's result (oracle), key-order "
+            "independence is proved under C09.  Correspondence: evaluator model on random programs in two key orders; Model/Interp.v "
+            "vs ast.Interpolate on arbitrary strings and in the round-trip direction"),
+ "C03": _ev("theorem C03_noninterference_partial: for every program without fn::fromJSON (imports, providers, fault plans, check mode "
+            "included) two runs that differ only in secret payloads and both end without diagnostics have low-equivalent results and "
+            "byte-identical redacted JSON / string / env-var / temp-file renderings (relational invariant over the mutually recursive "
+            "evaluator); refuted with fn::fromJSON of a secret null (C03-fromjson-null).  Correspondence: two-run oracle on the "
+            "implementation with every secret payload substituted, plus flag-level comparison with the model"),
+ "C05": _ev("theorems over every reachable call log of the model (all worlds, fuels, fault plans): no Open while checking; every Open "
+            "has unknown-free, schema-valid, object inputs and the right root/current names; each fn::open expression is opened at most "
+            "once (memo discipline) and each successfully loaded environment is loaded at most once; calls are logged exactly once.  "
+            "Correspondence: the implementation's collaborator call log compared event by event; the same clauses evaluated on it"),
+ "C06": _ev("theorems: checking logs no Open and (without showSecrets) no Decrypt; a decrypt only follows a valid envelope; fn::open and "
+            "undisclosed ciphertexts evaluate to unknown with the declared schema while checking.  PARTIAL: the approximation clause "
+            "(known scalars agree, arrays keep length, objects keep keys) and schema soundness are evaluated by the oracle `approx` on "
+            "check / check+showSecrets / open runs of the same world, not proved (see DESIGN 10)"),
+ "C07": _ev("theorems: results do not depend on fuel once it suffices, and an explicit bound always suffices (reference cycles, import "
+            "cycles, self-imports, every fault plan; excluding the model's 'unsupported' marker for non-ASCII JSON text); every declared "
+            "key is present in the result; every failure path yields an unknown value and a diagnostic.  Go panics, stack exhaustion and "
+            "hangs are runtime behaviour: covered by fault enumeration over every collaborator call position (compared with the model), "
+            "cyclic/failing imports, shape errors, byte mutation and interpolation fuzz through Load/Check/Eval/Encrypt/Decrypt"),
+ "C09": _ev("theorem C09_key_order_irrelevant: reordering keys at every nesting level of the root and of every loadable environment "
+            "leaves the observation unchanged (the model iterates no map).  Go's randomised map iteration is runtime behaviour: N+1 "
+            "evaluations in one process and one in a fresh process, Environment JSON and sorted diagnostic texts byte-compared, on "
+            "programs with many errors, conflicting provider schemas and keys differing only in case"),
+ "C10": _ev("theorems: the imports table is a memo (an evaluated import is never re-evaluated and contributes exactly the stored value to "
+            "imports.<name> and to the merge), value_access into imports.<x> returns the stored chain whatever was merged, what is "
+            "stored does not depend on the base being merged onto; state-independence (X means the same from any admissible state, "
+            "root and fuel) PROVED FOR LITERAL WORLDS, stated for general expressions (see DESIGN 10).  Mutable aliasing is runtime: "
+            "${imports.X} seen from arbitrary importers after all merges is compared with X evaluated on its own"),
 })
 
 CHECKS["C17"] = {
